@@ -301,6 +301,26 @@ Proof. change (2 ^ 63) with 9223372036854775808. change (2 ^ 64) with 1844674407
 Lemma lt32_lt64 x : x < 2 ^ 32 -> x < 2 ^ 64.
 Proof. change (2 ^ 32) with 4294967296. change (2 ^ 64) with 18446744073709551616. lia. Qed.
 
+(* the regenerated guards: every optional byte field is written, and counted by
+   Size(), exactly when it is non-nil.  A source change of any of these guards
+   makes this tactic (and the lemmas using it) fail. *)
+Ltac guards :=
+  change sf_metadata_guard_nil_marshal with true in *; change sf_metadata_guard_nil_size with true in *;
+  change sn_checksum_guard_nil_marshal with true in *; change sn_checksum_guard_nil_size with true in *;
+  change sh_header_checksum_guard_nil_marshal with true in *;
+  change sh_header_checksum_guard_nil_size with true in *;
+  change sh_payload_checksum_guard_nil_marshal with true in *;
+  change sh_payload_checksum_guard_nil_size with true in *;
+  change ck_data_guard_nil_marshal with true in *; change ck_data_guard_nil_size with true in *;
+  cbn [opt_present] in *.
+
+Lemma guards_all_nil :
+  (sf_metadata_guard_nil_marshal && sf_metadata_guard_nil_size && sn_checksum_guard_nil_marshal &&
+   sn_checksum_guard_nil_size && sh_header_checksum_guard_nil_marshal && sh_header_checksum_guard_nil_size &&
+   sh_payload_checksum_guard_nil_marshal && sh_payload_checksum_guard_nil_size &&
+   ck_data_guard_nil_marshal && ck_data_guard_nil_size)%bool = true.
+Proof. reflexivity. Qed.
+
 Lemma opt_field_wf n o : wf_num n -> olen o < 2 ^ 64 -> Forall wf_field (opt_field n o).
 Proof.
   intros Hn Ho. destruct o as [b|]; cbn [opt_field olen] in *.
@@ -348,7 +368,7 @@ Proof. unfold session_encode, session_to_fields, session_size. size_simpl. lia. 
 (* ---------- SnapshotFile ---------- *)
 Lemma sf_fields_wf s : wf_sf s -> Forall wf_field (sf_to_fields s).
 Proof.
-  intros (A & B & C & D). unfold sf_to_fields. apply Forall_app. split.
+  intros (A & B & C & D). unfold sf_to_fields. guards. apply Forall_app. split.
   - apply lt32_lt64 in A. fields_wf.
   - apply opt_field_wf; [vm_compute; split; [discriminate|reflexivity]|apply lt32_lt64; exact D].
 Qed.
@@ -356,7 +376,7 @@ Qed.
 Lemma sf_fold s t : fold_fields sf_step (sf_to_fields s) t = Some
   (mkSF (sf_filepath s) (sf_filesize s) (sf_fileid s)
         (match sf_metadata s with Some b => Some b | None => sf_metadata t end)).
-Proof. destruct s as [a b c [d|]]; destruct t; reflexivity. Qed.
+Proof. unfold sf_to_fields. guards. destruct s as [a b c [d|]]; destruct t; reflexivity. Qed.
 
 Lemma sf_roundtrip_proved s : wf_sf s -> sf_decode (sf_encode s) = Some s.
 Proof.
@@ -365,11 +385,11 @@ Proof.
 Qed.
 
 Lemma sf_size_exact_proved s : nlen (sf_encode s) = sf_size s.
-Proof. unfold sf_encode, sf_to_fields, sf_size. size_simpl. lia. Qed.
+Proof. unfold sf_encode, sf_to_fields, sf_size. guards. size_simpl. lia. Qed.
 
 Lemma sf_size_lt s : wf_sf s -> nlen (sf_encode s) < 2 ^ 64.
 Proof.
-  intros (A & B & C & D). rewrite sf_size_exact_proved. unfold sf_size, szb, szv, opt_size.
+  intros (A & B & C & D). rewrite sf_size_exact_proved. unfold sf_size, szb, szv, opt_size. guards.
   pose proof (sov_le_10 (nlen (sf_filepath s))). pose proof (sov_le_10 (sf_filesize s)).
   pose proof (sov_le_10 (sf_fileid s)).
   change (2 ^ 32) with 4294967296 in *. change (2 ^ 64) with 18446744073709551616.
@@ -634,7 +654,7 @@ Qed.
 Lemma sn_size_parts s : sn_size s < 2 ^ 63 ->
   mb_size (sn_membership s) < 2 ^ 63 /\ nlen (sn_filepath s) < 2 ^ 63 /\ olen (sn_checksum s) < 2 ^ 63.
 Proof.
-  unfold sn_size, szb, szv, opt_size. change (2 ^ 63) with 9223372036854775808.
+  unfold sn_size, szb, szv, opt_size. guards. change (2 ^ 63) with 9223372036854775808.
   destruct (sn_checksum s); cbn [olen]; unfold szb; lia.
 Qed.
 
@@ -646,7 +666,7 @@ Lemma sn_fields_wf s : wf_sn s -> Forall wf_field (sn_to_fields s).
 Proof.
   intros (A & B & C & D & E & F & G & H & I & J & K).
   destruct (sn_size_parts s K) as (K1 & K2 & K3).
-  unfold sn_to_fields. rewrite !Forall_app. repeat split.
+  unfold sn_to_fields. guards. rewrite !Forall_app. repeat split.
   - apply lt32_lt64 in A. rewrite <- mb_size_exact_proved in K1. apply lt63_lt64 in K1. fields_wf.
   - apply (Forall_map_wf _ wf_sf); [|exact F]. intros f Hf.
     split; [apply wf_num_lit; reflexivity|apply sf_size_lt; exact Hf].
@@ -661,7 +681,7 @@ Definition sn_put_files (t : snapshot) (x : list snapshotfile) : snapshot :=
 Lemma sn_fold s : wf_sn s -> fold_fields sn_step (sn_to_fields s) sn_zero = Some s.
 Proof.
   intros (A & B & C & D & E & F & G & H & I & J & K).
-  unfold sn_to_fields.
+  unfold sn_to_fields. guards.
   rewrite fold_fields_app.
   assert (S1 : fold_fields sn_step
      [(2, FB (sn_filepath s)); (3, FV (sn_filesize s)); (4, FV (sn_index s)); (5, FV (sn_term s));
@@ -694,7 +714,7 @@ Qed.
 
 Lemma sn_size_exact_proved s : nlen (sn_encode s) = sn_size s.
 Proof.
-  unfold sn_encode, sn_to_fields, sn_size. size_simpl.
+  unfold sn_encode, sn_to_fields, sn_size. guards. size_simpl.
   rewrite (nlen_enc_map _ (fun f => szb (sf_size f))).
   2:{ intros f. rewrite size_fb1 by lia. rewrite sf_size_exact_proved. reflexivity. }
   rewrite mb_size_exact_proved. unfold szv. rewrite !sov_enc_bool. lia.
